@@ -5,8 +5,9 @@ replay_one = machine.replay_one
 
 
 def run(chk):
-    res = machine.tlc_family(chk, "FamIndex", chk.tier)
-    cases = machine.expand(res.cases, "idx", layouts=("canon", "wide") if chk.tier == "quick" else machine.LAYOUTS)
+    lys = ("canon", "wide") if chk.tier == "quick" else machine.LAYOUTS
+    res = machine.tlc_family(chk, "FamIndex", chk.tier, layouts=lys)
+    cases = machine.expand(res.cases, "idx", layouts=lys)
     chk.rule = ("all arrays [10..10n] and strings of n code points (1,2,3,4-byte characters), n = 0..N, crossed with "
                 "every index in [-n-2, n+2], +-0.5, 1.5, +-(2^31-1), +-2^63, nan, +-inf (literal and through a variable), "
                 "element stores through each index, all pairs of slice bounds incl. missing ones, freshness of array "
